@@ -49,6 +49,7 @@ Act(ev) ==
       [] ev.act = "Drop"       -> Drop(ev.d)
       [] ev.act = "QSubset"    -> QSubset(ev.a, ev.b) /\ obs'.ans = ev.ans      \* C03
       [] ev.act = "QEq"        -> QEq(ev.a, ev.b) /\ obs'.ans = ev.ans          \* C07
+      [] ev.act = "QProbe"     -> QProbe(ev.a, ev.b)
       [] ev.act = "QMeasure"   -> QMeasure(ev.a)
       [] OTHER -> FALSE
 
